@@ -1,2 +1,4 @@
 import HpoProofs.Group
 import HpoProofs.TermId
+import HpoProofs.Hypergeom
+import HpoProofs.Enrich
